@@ -6,6 +6,7 @@ package main
 // the verif hook) with a Demon-built COMMAND_GET_JOB request.
 
 import (
+	"encoding/base64"
 	"fmt"
 	"strconv"
 	"strings"
@@ -13,6 +14,7 @@ import (
 	"Havoc/pkg/agent"
 	"Havoc/pkg/handlers"
 
+	"verifharness/internal/gen"
 	"verifharness/internal/mockts"
 )
 
@@ -65,6 +67,40 @@ func (w *c02World) line(c *Ctx, in string) {
 			return fmt.Sprintf("ok req=%d", job.RequestID)
 		})
 		c.Emit("%s => %s", in, out)
+	case "prep": // prep <command> <taskid hex8> <key> <iv> <ks> <param hex|->…: an operator command through the real TaskPrepare, on a fresh agent
+		out := guard(func() string {
+			key, iv := unhx(parts[3]), unhx(parts[4])
+			a := newAgent(0x00c02aaa, key, iv)
+			ts := mockts.New()
+			ts.Agents = append(ts.Agents, a)
+			var ps []string
+			for _, h := range parts[6:] {
+				if h == "-" {
+					ps = append(ps, "")
+				} else {
+					ps = append(ps, string(unhx(h)))
+				}
+			}
+			cmd, info := prepInfo(parts[1], ps)
+			if info == nil {
+				return "UNKNOWN"
+			}
+			info["TaskID"] = parts[2]
+			info["CommandLine"] = parts[1]
+			msg := map[string]string{}
+			job, err := a.TaskPrepare(cmd, info, &msg, "client", ts)
+			if err != nil || job == nil {
+				return "REFUSED"
+			}
+			a.AddJobToQueue(*job)
+			req := demonRequest(0x00c02aaa, key, iv, []dpkg{{cmd: agent.COMMAND_GET_JOB, req: 0, nobody: true}})
+			resp, ok := handlers.VerifParseAgentRequest(ts, req, "127.0.0.1")
+			if !ok {
+				return "REJECTED"
+			}
+			return hx(resp.Bytes())
+		})
+		c.Emit("%s => %s", in, out)
 	case "checkin": // checkin <id>
 		id64, _ := strconv.ParseUint(parts[1], 16, 32)
 		k := w.keys[parts[1]]
@@ -83,6 +119,56 @@ func (w *c02World) line(c *Ctx, in string) {
 	}
 }
 
+// prepInfo: the request an operator's client sends for a command, as TaskPrepare takes it.
+func prepInfo(name string, p []string) (int, map[string]interface{}) {
+	b64 := func(s string) string { return base64.StdEncoding.EncodeToString([]byte(s)) }
+	arg := func(i int) string {
+		if i < len(p) {
+			return p[i]
+		}
+		return ""
+	}
+	switch name {
+	case "sleep":
+		return agent.COMMAND_SLEEP, map[string]interface{}{"Arguments": arg(0) + ";" + arg(1)}
+	case "fs.cd", "fs.remove", "fs.mkdir":
+		return agent.COMMAND_FS, map[string]interface{}{"SubCommand": name[3:], "Arguments": arg(0)}
+	case "fs.download", "fs.cat":
+		return agent.COMMAND_FS, map[string]interface{}{"SubCommand": name[3:], "Arguments": b64(arg(0))}
+	case "fs.cp", "fs.mv":
+		return agent.COMMAND_FS, map[string]interface{}{"SubCommand": name[3:], "Arguments": b64(arg(0)) + ";" + b64(arg(1))}
+	case "fs.pwd":
+		return agent.COMMAND_FS, map[string]interface{}{"SubCommand": "pwd", "Arguments": ""}
+	case "proc.kill":
+		return agent.COMMAND_PROC, map[string]interface{}{"ProcCommand": strconv.Itoa(agent.DEMON_COMMAND_PROC_KILL), "Args": arg(0)}
+	case "proc.modules":
+		return agent.COMMAND_PROC, map[string]interface{}{"ProcCommand": strconv.Itoa(agent.DEMON_COMMAND_PROC_MODULES), "Args": arg(0)}
+	case "proc.grep":
+		return agent.COMMAND_PROC, map[string]interface{}{"ProcCommand": strconv.Itoa(agent.DEMON_COMMAND_PROC_GREP), "Args": arg(0)}
+	case "job.list":
+		return agent.COMMAND_JOB, map[string]interface{}{"Command": "list"}
+	case "job.suspend", "job.resume", "job.kill":
+		return agent.COMMAND_JOB, map[string]interface{}{"Command": name[4:], "Param": arg(0)}
+	case "token.impersonate":
+		return agent.COMMAND_TOKEN, map[string]interface{}{"SubCommand": "impersonate", "Arguments": arg(0)}
+	case "token.remove":
+		return agent.COMMAND_TOKEN, map[string]interface{}{"SubCommand": "remove", "Arguments": arg(0)}
+	case "pivot.connect":
+		return agent.COMMAND_PIVOT, map[string]interface{}{"Command": strconv.Itoa(agent.DEMON_PIVOT_SMB_CONNECT), "Param": arg(0)}
+	case "pivot.disconnect":
+		return agent.COMMAND_PIVOT, map[string]interface{}{"Command": strconv.Itoa(agent.DEMON_PIVOT_SMB_DISCONNECT), "Param": arg(0)}
+	case "transfer.list":
+		return agent.COMMAND_TRANSFER, map[string]interface{}{"Command": "list", "FileID": ""}
+	case "transfer.stop", "transfer.resume", "transfer.remove":
+		return agent.COMMAND_TRANSFER, map[string]interface{}{"Command": name[9:], "FileID": arg(0)}
+	case "exit.thread", "exit.process":
+		return agent.COMMAND_EXIT, map[string]interface{}{"ExitMethod": name[5:]}
+	case "proclist":
+		return agent.COMMAND_PROC_LIST, map[string]interface{}{"FromProcessManager": arg(0)}
+	}
+	return 0, nil
+}
+
 func runC02(c *Ctx) {
 	w := newC02World()
 	if c.Replay != "" {
@@ -92,6 +178,76 @@ func runC02(c *Ctx) {
 		return
 	}
 	r := c.R
+	// the operator's commands: every command of the table, parameters from the text classes of the property
+	// (empty, ASCII, non-ASCII incl. characters outside the BMP, already NUL-terminated, long) and integer boundaries
+	texts := func() string {
+		switch r.Intn(9) {
+		case 0:
+			return ""
+		case 1:
+			return "C:\\Windows\\Temp"
+		case 2:
+			return "pfad/mit ümläuten/и кириллица"
+		case 3:
+			return "emoji \U0001F4C1 und \U00020000 (outside the BMP)"
+		case 4:
+			return "nul-terminated\x00"
+		case 5:
+			return strings.Repeat("long/", 300+r.Intn(300))
+		case 6:
+			return "\\\\.\\pipe\\demo_pipe"
+		case 7:
+			return string([]rune{rune(0x10000 + r.Intn(0xFFFFF)), 'x', rune(0x4E00 + r.Intn(0x5000))})
+		default:
+			return fmt.Sprintf("f%d.txt", r.Intn(1000))
+		}
+	}
+	ints := func() string {
+		return gen.Pick(r, []string{"0", "1", "4", "1234", "65535", "2147483647", fmt.Sprint(r.Intn(100000))})
+	}
+	hexids := func() string {
+		return gen.Pick(r, []string{"0", "1", "7fffffff", "deadbeef"[:1+r.Intn(7)], fmt.Sprintf("%x", r.Intn(1<<30))})
+	}
+	prepCases := []struct {
+		name   string
+		params func() []string
+	}{
+		{"sleep", func() []string { return []string{ints(), fmt.Sprint(r.Intn(101))} }},
+		{"fs.cd", func() []string { return []string{texts()} }}, {"fs.remove", func() []string { return []string{texts()} }},
+		{"fs.mkdir", func() []string { return []string{texts()} }}, {"fs.download", func() []string { return []string{texts()} }},
+		{"fs.cat", func() []string { return []string{texts()} }}, {"fs.cp", func() []string { return []string{texts(), texts()} }},
+		{"fs.mv", func() []string { return []string{texts(), texts()} }}, {"fs.pwd", func() []string { return nil }},
+		{"proc.kill", func() []string { return []string{ints()} }}, {"proc.modules", func() []string { return []string{ints()} }},
+		{"proc.grep", func() []string { return []string{texts()} }}, {"job.list", func() []string { return nil }},
+		{"job.suspend", func() []string { return []string{ints()} }}, {"job.resume", func() []string { return []string{ints()} }},
+		{"job.kill", func() []string { return []string{ints()} }}, {"token.impersonate", func() []string { return []string{ints()} }},
+		{"token.remove", func() []string { return []string{ints()} }}, {"pivot.connect", func() []string { return []string{texts()} }},
+		{"pivot.disconnect", func() []string { return []string{hexids()} }}, {"transfer.list", func() []string { return nil }},
+		{"transfer.stop", func() []string { return []string{hexids()} }}, {"transfer.resume", func() []string { return []string{hexids()} }},
+		{"transfer.remove", func() []string { return []string{hexids()} }}, {"exit.thread", func() []string { return nil }},
+		{"exit.process", func() []string { return nil }}, {"proclist", func() []string { return []string{gen.Pick(r, []string{"true", "false"})} }},
+	}
+	nprep := 3 * len(prepCases)
+	if c.Tier == "thorough" {
+		nprep = 40 * len(prepCases)
+	}
+	for i := 0; i < nprep; i++ {
+		pc := prepCases[i%len(prepCases)]
+		key, iv := r.Bytes(32), r.Bytes(16)
+		if r.Chance(1, 10) {
+			key = make([]byte, 32)
+		}
+		l := fmt.Sprintf("prep %s %08x %s %s %s", pc.name, r.U32(), hx(key), hx(iv), hx(keystream(key, iv, 8000)))
+		for _, p := range pc.params() {
+			if p == "" {
+				l += " -"
+			} else {
+				l += " " + hx([]byte(p))
+			}
+		}
+		c.Count("prep." + pc.name)
+		w.line(c, l)
+	}
 	// a case = fresh world, 1-2 agents, a few jobs (<= ksPrefix body bytes), check-ins until drained
 	for cases := 0; c.Lines < c.N; cases++ {
 		w.line(c, "reset")
